@@ -202,7 +202,7 @@ func c01Shapes(c *fw.Ctx, idx int) {
 	kind := gen.Kinds7[r.Intn(len(gen.Kinds7))]
 	layout := gen.PickLayout(r, c01Layouts)
 	cl := gen.AnyClass(r)
-	g := gen.Shape(r, kind, layout, cl, gen.ShapeOpts{Big: true})
+	g := gen.Shape(r, kind, layout, cl, gen.ShapeOpts{Big: true, Huge: true})
 	if layout == geom.NoLayout {
 		// NoLayout: exercise empty nested arrays of every shape the type allows
 		switch kind {
